@@ -39,7 +39,7 @@ LEVEL_TEXT = (
     "computed.")
 LEVEL_NOTE = "Trusted: the kinds engine (E4) and its refinement on isBreak()/isContinue()/isReturn() tests."
 ASSUMPTIONS = []
-FLOORS = {"C04.if": 3, "C04.signal": 14, "C04.while": 2, "C04.order": 3, "C04.pair": 24}
+FLOORS = {"C04.qual": 9, "C04.if": 3, "C04.signal": 14, "C04.while": 2, "C04.order": 3, "C04.pair": 24}
 
 CONTROL_BC = {"ValueControlBreak", "ValueControlContinue"}
 
@@ -196,8 +196,64 @@ def same_elements(ctx, model, nf, gcv):
                       site=f"{kind[2:].lower()} / {q or 'no qualifier'}: for statement and comprehension enumerate the same thing")
 
 
+def qualifier_chains(ctx, model):
+    """The `keys` / `values` / `entries` qualifier after `in` (for statement, list / set / map comprehension, first and
+    second collection): the arms of one qualifier chain `if lexer.matchIf("keys", ..): v = "keys" elif ..` are
+    siblings - every arm records the word it has just matched, and all of them in the same variable (the second
+    collection's chain in the second collection's variable)."""
+    parser = model.module(P, "parser")
+    n = 0
+    done = set()
+    for f in parser.all_funcs():
+        for node in ast.walk(f.node):
+            if not isinstance(node, ast.If) or id(node) in done:
+                continue
+            arms, x = [], node
+            while True:
+                arms.append(x)
+                if len(x.orelse) == 1 and isinstance(x.orelse[0], ast.If):
+                    x = x.orelse[0]
+                    done.add(id(x))
+                else:
+                    break
+            rec = []
+            for a in arms:
+                t = a.test
+                if isinstance(t, ast.Call) and isinstance(t.func, ast.Attribute) and t.func.attr == "matchIf" \
+                        and t.args and isinstance(t.args[0], ast.Constant) \
+                        and t.args[0].value in ("keys", "values", "entries") and len(a.body) == 1:
+                    st = a.body[0]
+                    if isinstance(st, ast.Assign) and len(st.targets) == 1 and isinstance(st.value, ast.Constant):
+                        rec.append((t.args[0].value, norm(st.targets[0]), st.value.value, st))
+                    elif isinstance(st, ast.Return) and isinstance(st.value, ast.Constant):
+                        rec.append((t.args[0].value, "<return>", st.value.value, st))
+            if len(rec) < 2:
+                continue
+            n += 1
+            targets = {r[1] for r in rec}
+            wrong = [r for r in rec if r[0] != r[2]]
+            # the odd one out among the targets
+            odd = None
+            if len(targets) > 1:
+                from collections import Counter
+                common_t = Counter(r[1] for r in rec).most_common(1)[0][0]
+                odd = next(r for r in rec if r[1] != common_t)
+            bad = wrong[0] if wrong else odd
+            ctx.check("C04.qual", f, bad[3] if bad else node, bad is None,
+                      (f"the arm for `{bad[0]}` records {bad[2]!r}" if wrong else
+                       f"the arm for `{bad[0] if bad else ''}` records the qualifier in `{bad[1] if bad else ''}` while "
+                       f"its sibling arms use `{sorted(targets - {bad[1]})[0] if bad else ''}`") +
+                      ": the collection is then enumerated under another qualifier than the one written (keys / values "
+                      "/ entries), so a comprehension differs from the equivalent loop",
+                      expr=f"qualifier chain {sorted(targets)}",
+                      site=f"{f.qual}: qualifier chain #{n} records the matched word in one variable")
+    if n < 1:
+        ctx.broken("parser", "no keys / values / entries qualifier chain found in the parser")
+
+
 def run(ctx):
     model = ctx.model
+    qualifier_chains(ctx, model)
     engine = Engine(model)
     # ---------------------------------------------------------------- if
     ni = model.method(P, "NodeIf", "evaluate")
